@@ -225,6 +225,7 @@ RefLoad(h, n, T, fuel) ==
          THEN RERR                                                   \* missing attribute
     ELSE LET r == RefAttrs(h2, n2, cname, 1, <<>>, <<>>, fuel) IN
          IF r[1] = "ERR" \/ c.initraises THEN RERR
+         ELSE IF c.raisesif # <<>> /\ KwHas(r[2], c.raisesif[1], c.raisesif[2]) THEN RERR
          ELSE RV(<<"obj", cname, r[2]>>)
 
 \* the alias-expanded document needs no special treatment: RefLoad follows
